@@ -205,6 +205,11 @@ def verify_function(reg, c, budget_paths=MAX_PATHS):
             rep.aborted_paths += 1
         except RetryPath as r:
             worklist.append(r.prefix)
+            # alternatives discovered before the retry site stay to be explored (the re-run replays that
+            # part from its prefix and does not discover them again); later ones are found again
+            for p in st.pending:
+                if len(p) < len(r.prefix):
+                    worklist.append(p)
             _cleanup(st)
             continue
         except Unsupported as u:
